@@ -48,7 +48,7 @@ def run_case(case, verbose=False):
         results = []
         for pid in case["props"]:
             env = dict(os.environ, BFSA_REPO=tmp, BFSA_EVIDENCE_DIR=os.path.join(tmp, "_evidence"))
-            p = subprocess.run([os.path.join(VERIF, "check"), pid, "--repo", tmp], capture_output=True, text=True, env=env)
+            p = subprocess.run([os.path.join(VERIF, "check"), pid, "--repo", tmp, "--tier", case.get("tier", "quick")], capture_output=True, text=True, env=env)
             out = p.stdout + p.stderr
             fired = p.returncode == 1 and "VIOLATION property=%s" % pid in out
             results.append((pid, p.returncode, fired, out))
